@@ -255,7 +255,7 @@ func init() {
 		Simulated: []string{"writer (errors, short writes)", "reader (short reads)", "host world"},
 		Runs: func(tier string) int {
 			if tier == "thorough" {
-				return 60000000
+				return 8000000
 			}
 			return 60000
 		},
